@@ -343,7 +343,7 @@ MENU_MARATHON = {"items": {"bond": 3, "bond_st": 3, "unbond_b": 8, "unbond_st": 
 
 
 def marathon_drive(runs=(25, 800)):
-    return dict(name="marathon", menu=MENU_MARATHON, runs=runs, len=170, consts=dict(MaxBatch=14))
+    return dict(name="marathon", menu=MENU_MARATHON, runs=runs, len=170, consts=dict(MaxBatch=14, T0=1400000000))   # block time at Unix scale
 
 
 for _p in ("C01", "C07", "C08", "C09"):
